@@ -495,8 +495,17 @@ def wl_toplevel(ctx, rng, i):
         cp = {n: kw.pop(n) for n in tl_names[:max(1, len(tl_names) // 2)]}
         return cls(allow_custom=True, custom_properties=cp, **kw)
 
+    def entries_without_extension_type():
+        # a registered extension's entry may leave extension_type to its class
+        kw = copy.deepcopy(o)
+        for key in (gcustom.TOPLEVEL_A, gcustom.TOPLEVEL_B):
+            if key in kw["extensions"]:
+                kw["extensions"][key] = {}
+        return cls(allow_custom=True, **kw)
+
     made = []
     for route, fn in (("parse", lambda: stix2.parse(json.dumps(o), allow_custom=True)), ("constructor", lambda: cls(allow_custom=True, **copy.deepcopy(o))),
+                      ("constructor/entries-without-extension_type", entries_without_extension_type if "u" not in which else None),
                       ("constructor/instances", as_instances), ("constructor/custom_properties", through_custom_properties if tl_names else None)):
         if fn is None:
             continue
